@@ -3,7 +3,7 @@ import AbraModel.Literals
 import AbraModel.Drv.Util
 /- Driver for M10 `Lex`/`Literals`:
    `lex <hex of the UTF-8 source>` → `<tok> <tok> … | <err> …` with tok = `Tag/lo/hi` or
-   `Tag:<hex of payload>/lo/hi`, err = `U/<index>` (unrecognized token) or `E/lo/hi` (bad escape);
+   `Tag:<hex of payload>/lo/hi` (byte offsets), err = `U/<offset>` (unrecognized token) or `E/lo/hi` (bad escape);
    `lexkinds <hex>` → the same without spans; `intlit <0|1 negated> <digits>` → `ok <value>` | `range`;
    `escape <s|d|t> <hex>` → hex of the escaped spelling (the generator's printer). -/
 namespace Abra.Drv
@@ -50,7 +50,7 @@ def handleLex (spans : Bool) : List String → String
   | [w] =>
     match lexDecode? w with
     | some src =>
-      let (ts, es) := tokenize src
+      let (ts, es) := tokenizeBytes src
       let tw := ts.map (fun t => if spans then lexKindWord t.kind ++ "/" ++ toString t.lo ++ "/" ++ toString t.hi
                                   else lexKindWord t.kind)
       String.intercalate " " tw ++ " |" ++ String.join (es.map (fun e => " " ++ lexErrWord e))
